@@ -61,7 +61,7 @@ Rows == {q \in Positions \X Nodes \X (UNION {ParseIn(m) \cup ValueIn(m) : m \in 
 
 CaseOfRow(q, id) ==
   LET pl == Place(q[1], q[2], q[3], q[4])
-  IN [id |-> id, mode |-> q[4], fe |-> "map", schema |-> pl.schema, input |-> pl.input]
+  IN [id |-> id, mode |-> q[4], fe |-> "map", pre |-> 0, schema |-> pl.schema, input |-> pl.input]
 
 (***************************************************************************)
 (* The literal statement of C04, evaluated on the reference semantics.     *)
